@@ -32,7 +32,7 @@ def check_seq(ctx, case):
     if "H" in seq:
         cl.append("has-H")
     ctx.count(case, nontrivial=(N >= 5 and charged and want > 0), classes=cl)
-    got = util.sp(seq).get_delta()
+    got = util.spw(case.get("raw", seq), case).get_delta()
     if N < 5:
         ctx.check(got == 0, "short", "delta must be 0 for N<5, got %r" % (got,), case)
     if not charged:
@@ -48,11 +48,31 @@ def enum_cases(tier, seed):
         yield {"seq": s}
 
 
+@st.composite
+def hyp_case(draw, max_len):
+    warm = draw(gens.warmups())
+    s = draw(gens.sequences(max_len=60 if warm else max_len))
+    case = {"seq": s, "warm": warm}
+    if draw(st.integers(0, 3)) == 0:
+        # the same word as a user would paste it: blocks of ten, wrapped lines, padding, lower case (C13 says this is the same sequence)
+        style = draw(st.sampled_from(["blocks", "wrapped", "padded", "lower"]))
+        if style == "blocks":
+            raw = " ".join(s[i:i + 10] for i in range(0, len(s), 10))
+        elif style == "wrapped":
+            raw = "\n".join(s[i:i + 60] for i in range(0, len(s), 60)) + "\n"
+        elif style == "padded":
+            raw = "  " + s + " \t"
+        else:
+            raw = s.lower()
+        case["raw"] = raw
+    return case
+
+
 def parts(tier):
     return [
         Part("enum-patterns", "enum", check=check_seq, cases=enum_cases, exhaustive=True,
              shards={"quick": 8, "thorough": 16}),
         Part("hyp-sequences", "hyp", check=check_seq,
-             strategy=lambda t: st.builds(lambda s: {"seq": s}, gens.sequences(max_len=120 if t == "quick" else 500)),
+             strategy=lambda t: hyp_case(120 if t == "quick" else 500),
              examples={"quick": 6400, "thorough": 32000}, shards={"quick": 4, "thorough": 16}),
     ]
